@@ -21,12 +21,14 @@ import (
 	"context"
 	"encoding/hex"
 	"fmt"
+	"io"
 	"math/rand"
 	"os"
 	"sort"
 	"strconv"
 	"strings"
 	"sync/atomic"
+	"syscall"
 	"time"
 
 	"github.com/pingcap/log"
@@ -425,22 +427,47 @@ type hbInfo struct {
 
 var hbCount atomic.Uint64
 var hbCur atomic.Value // hbInfo
+var inWrite, wdOff atomic.Bool
+
+// wdWriter: time spent blocked on the output pipe (the model driver reads slower than we write) is not a hang
+type wdWriter struct{ w io.Writer }
+
+func (x wdWriter) Write(p []byte) (int, error) {
+	inWrite.Store(true)
+	n, err := x.w.Write(p)
+	hbCount.Add(1)
+	inWrite.Store(false)
+	return n, err
+}
 
 func heartbeat(seq string, idx int, op string, printed bool) {
 	hbCur.Store(hbInfo{seq, op, idx, printed})
 	hbCount.Add(1)
 }
 
+func cpuTime() time.Duration {
+	var ru syscall.Rusage
+	if syscall.Getrusage(syscall.RUSAGE_SELF, &ru) != nil {
+		return 0
+	}
+	return time.Duration(ru.Utime.Nano() + ru.Stime.Nano())
+}
+
+// a stall counts as a hang when the process burnt CPU for at least half of the limit without finishing the
+// op (busy loop), or made no progress for 10x the limit (blocked); a starved machine alone is not a hang
 func watchdog(limit time.Duration) {
-	last, since := hbCount.Load(), time.Now()
+	last, since, cpu0 := hbCount.Load(), time.Now(), cpuTime()
 	for {
 		time.Sleep(500 * time.Millisecond)
 		c := hbCount.Load()
-		if c != last {
-			last, since = c, time.Now()
+		if c != last || inWrite.Load() || wdOff.Load() {
+			last, since, cpu0 = c, time.Now(), cpuTime()
 			continue
 		}
 		if time.Since(since) < limit {
+			continue
+		}
+		if cpuTime()-cpu0 < limit/2 && time.Since(since) < 10*limit {
 			continue
 		}
 		info, _ := hbCur.Load().(hbInfo)
@@ -454,7 +481,7 @@ func watchdog(limit time.Duration) {
 		}
 		fmt.Fprintf(out, "P\tcall-terminates\t%s\t%d\tfail\t%s\tno progress for %v\n", info.seq, info.idx, strings.ReplaceAll(info.op, "\t", " "), limit)
 		fmt.Fprintf(out, "END\n")
-		fmt.Fprintf(out, "PC\tcall-terminates\t%d\n", c)
+		fmt.Fprintf(out, "PC\tcall-terminates\t%d\n", rnSteps)
 		out.Flush()
 		os.Exit(0)
 	}
@@ -580,7 +607,10 @@ func validPanics(it *art.Iterator) (p bool) {
 }
 
 // step executes one op on both implementations, prints the O line, runs the oracles
+var rnSteps int
+
 func (rn *runner) step(f []string, staleProbe bool) string {
+	rnSteps++
 	heartbeat(rn.id, rn.idx, strings.Join(f, "\t"), false)
 	mut := isMutator(f[0])
 	var probe *art.Iterator
@@ -930,7 +960,7 @@ func universe(rng *rand.Rand, cls string) (keys [][]byte, preload int) {
 			add(append(k, bytes.Repeat([]byte{[]byte{'z', 0xff, 'q'}[rng.Intn(3)]}, 4+rng.Intn(6))...))
 		}
 		nMid := nLong + 20 + rng.Intn(110)
-		for len(keys) < nMid {
+		for tries := 0; len(keys) < nMid && tries < 5000; tries++ {
 			k := append([]byte{'b'}, randBytes(rng, 2+rng.Intn(2), mid)...)
 			add(k)
 			if rng.Intn(3) == 0 {
@@ -938,8 +968,8 @@ func universe(rng *rand.Rand, cls string) (keys [][]byte, preload int) {
 			}
 		}
 		total := 100 + rng.Intn(300)
-		for len(keys) < total {
-			stem := []byte{byte('c' + rng.Intn(8))}
+		for tries := 0; len(keys) < total && tries < 5000; tries++ {
+			stem := []byte{byte('c' + rng.Intn(20))}
 			if rng.Intn(3) != 0 {
 				stem = append(stem, mid[rng.Intn(len(mid))])
 			}
@@ -1192,6 +1222,22 @@ func replay(mode, path string) {
 				ks = append(ks, k)
 			}
 			sort.Strings(ks)
+			if len(ks) > 8 {
+				// big sequences: per-key observers for the key just written and a few neighbours only
+				cur := ""
+				if len(o) > 1 {
+					cur = o[1]
+				}
+				j := sort.SearchStrings(ks, cur)
+				lo, hi := j-4, j+4
+				if lo < 0 {
+					lo = 0
+				}
+				if hi > len(ks) {
+					hi = len(ks)
+				}
+				ks = ks[lo:hi]
+			}
 			for _, k := range ks {
 				for _, ob := range [][]string{{"get", k}, {"gflags", k}, {"sget", k}, {"hist", k, "any"}, {"hist", k, "nonempty"}} {
 					rn.step(ob, false)
@@ -1207,7 +1253,7 @@ func replay(mode, path string) {
 
 func main() {
 	log.ReplaceGlobals(zap.NewNop(), &log.ZapProperties{})
-	out = bufio.NewWriterSize(os.Stdout, 1<<20)
+	out = bufio.NewWriterSize(wdWriter{os.Stdout}, 1<<20)
 	defer out.Flush()
 	wd := 30
 	if v, err := strconv.Atoi(os.Getenv("VERIF_C08_WATCHDOG_S")); err == nil && v > 0 {
@@ -1246,7 +1292,8 @@ func main() {
 			}
 		}
 	}
-	pcTotal["call-terminates"] = int(hbCount.Load() / 2)
+	wdOff.Store(true) // generation is over: only output remains
+	pcTotal["call-terminates"] = rnSteps
 	names := make([]string, 0, len(pcTotal))
 	for n := range pcTotal {
 		names = append(names, n)
